@@ -28,7 +28,7 @@ def scenario(ctx, i):
     nm = int(r.integers(1, 5))
     nt = int(r.integers(1, 5))
     models = [m + r.normal(size=m.shape) * np.sqrt(v) * r.choice([0.0, 0.3, 1.0]) for _ in range(nm)]
-    mk = ["machines", "array3", "array2"][i % 3]
+    mk = ["machines", "array3", "array2"][int(r.integers(0, 3))]  # every choice below is drawn independently (no parity ties between them)
     if mk == "array2":
         models = models[:1]
     tests = []
@@ -36,12 +36,12 @@ def scenario(ctx, i):
         t = int(r.integers(0, 40)) if r.random() < 0.85 else 0
         n = r.dirichlet(np.ones(C)) * t
         tests.append(dict(n=n, px=(m + r.normal(size=m.shape) * np.sqrt(v)) * n[:, None], t=t))
-    single = (i % 5 == 0)
+    single = bool(r.random() < 0.2)
     if single:
         tests = tests[:1]
-    ok = ["scalar", "shared", "per_test"][i % 3]
+    ok = ["scalar", "shared", "per_test"][int(r.integers(0, 3))]
     off = 0.0 if ok == "scalar" else (r.normal(size=(C, D)) * np.sqrt(v) * 0.2 if ok == "shared" else np.array([r.normal(size=(C, D)) * np.sqrt(v) * 0.2 for _ in tests]))
-    return dict(C=C, D=D, w=w, m=m, v=v, models=models, models_kind=mk, tests=tests, single=single, off_kind=ok, off=off, norm=bool(i % 2), ubm_is_map=(i % 4 == 3))
+    return dict(C=C, D=D, w=w, m=m, v=v, models=models, models_kind=mk, tests=tests, single=single, off_kind=ok, off=off, norm=bool(r.integers(0, 2)), ubm_is_map=bool(r.random() < 0.3))
 
 
 def call_impl(sc):
@@ -51,7 +51,9 @@ def call_impl(sc):
     ubm_arg = ubm
     if sc["ubm_is_map"]:
         ubm_arg = GMMMachine(sc["C"], trainer="map", ubm=ubm)
-        ubm_arg.means = np.array(sc["m"]) + 1.0  # the adapted machine's own means must be ignored
+        ubm_arg.means = np.array(sc["m"]) + 1.0  # the adapted machine's own means, variances and weights must be ignored
+        ubm_arg.variances = np.array(sc["v"]) * 1.7
+        ubm_arg.weights = np.array(sc["w"])[::-1].copy()
     if sc["models_kind"] == "machines":
         mm = [gen.mk_gmm(sc["w"], x, sc["v"]) for x in sc["models"]]
     elif sc["models_kind"] == "array3":
